@@ -7,6 +7,7 @@ import (
 	"strings"
 	"unicode"
 
+	"github.com/freeconf/yang/fc"
 	"github.com/freeconf/yang/meta"
 	"github.com/freeconf/yang/node"
 	"github.com/freeconf/yang/val"
@@ -672,13 +673,22 @@ func (self Reflect) WriteFieldWithFieldName(fieldName string, m meta.Leafable, p
 			fieldVal.Set(value)
 		case fieldVal.CanConvert(value.Type()):
 			// convertible
-			fieldVal.Set(value.Convert(fieldVal.Type()))
+			converted := value.Convert(fieldVal.Type())
+			if !sameNumber(value, converted) {
+				return fmt.Errorf("%w. %v does not fit field %s of type %v", fc.BadRequestError, value.Interface(), fieldName, fieldVal.Type())
+			}
+			fieldVal.Set(converted)
 		case value.Kind() == reflect.Slice && fieldVal.Kind() == reflect.Slice && value.Type().Elem().ConvertibleTo(fieldVal.Type().Elem()):
 			// slice with convertible values
-			fieldVal.Set(reflect.MakeSlice(fieldVal.Type(), value.Len(), value.Len()))
+			items := reflect.MakeSlice(fieldVal.Type(), value.Len(), value.Len())
 			for i := 0; i < value.Len(); i++ {
-				fieldVal.Index(i).Set(value.Index(i).Convert(fieldVal.Type().Elem()))
+				converted := value.Index(i).Convert(fieldVal.Type().Elem())
+				if !sameNumber(value.Index(i), converted) {
+					return fmt.Errorf("%w. %v does not fit the items of field %s of type %v", fc.BadRequestError, value.Index(i).Interface(), fieldName, fieldVal.Type())
+				}
+				items.Index(i).Set(converted)
 			}
+			fieldVal.Set(items)
 		default:
 			return fmt.Errorf("cannot convert value of '%v' to fieldvalue '%v'", value.Type(), fieldVal.Type())
 		}
@@ -817,4 +827,20 @@ func isKeyLeaf(m meta.Leafable) bool {
 		}
 	}
 	return false
+}
+
+// sameNumber is false when converting a number to a narrower Go type changed it
+func sameNumber(orig reflect.Value, converted reflect.Value) bool {
+	if !isNumberKind(orig.Kind()) || !isNumberKind(converted.Kind()) {
+		return true
+	}
+	back := converted.Convert(orig.Type())
+	if back.Interface() != orig.Interface() {
+		return false
+	}
+	// a negative number in an unsigned type of the same width converts back to itself
+	negative := func(v reflect.Value) bool {
+		return v.CanInt() && v.Int() < 0 || v.CanFloat() && v.Float() < 0
+	}
+	return negative(orig) == negative(converted)
 }
